@@ -1242,7 +1242,7 @@ class Walker:
                 # `if x > hi: x = hi` (outside any loop) is the clamp x = min(x, hi), like the conditional expression
                 env[k] = mk_ext("min" if va == cond[2] else "max", [va, vb])
                 continue
-            env[k] = va if va == vb else ("sel", cond, va, vb)
+            env[k] = va if va == vb else nan_identity(("sel", cond, va, vb))
 
     @staticmethod
     def boolify(t: Term) -> Term:
@@ -2042,7 +2042,7 @@ class Walker:
                     return mk_ext("min", [a, b])
             if c[0] == "const" and isinstance(c[1], bool):
                 return a if c[1] else b
-            return ("sel", c, a, b)
+            return nan_identity(("sel", c, a, b))
         if isinstance(e, ast.Tuple):
             return ("tuple", tuple(self.ev(x, env) for x in e.elts))
         if isinstance(e, ast.List):
@@ -2471,8 +2471,21 @@ class Walker:
         b = self._fold_returns(rest_other)
         if a is None or b is None:
             return None
-        return ("sel", c, a, b) if pol else ("sel", c, b, a)
+        return nan_identity(("sel", c, a, b) if pol else ("sel", c, b, a))
 
+
+
+def nan_identity(t: Term) -> Term:
+    """`FLOAT_MAX if isnan(x) else x` is x for every x that is a number (the quantities the rules speak about - distances
+    of finite data, costs - are never NaN; a NaN would lose every `<` exactly like FLOAT_MAX does)."""
+    isnan = lambda c: c[0] == "call" and c[1] in (("mod", "numpy.isnan"), ("mod", "math.isnan")) and len(c[2]) == 1 and not c[3]
+    if t[0] == "sel":
+        c, a, b = t[1], t[2], t[3]
+        if isnan(c) and a == ("K", "FLOAT_MAX") and c[2][0] == b:
+            return b
+        if c[0] == "not" and isnan(c[1]) and b == ("K", "FLOAT_MAX") and c[1][2][0] == a:
+            return a
+    return t
 
 
 # ---------------------------------------------------------------------------
